@@ -65,6 +65,11 @@ fn main() {
         }
     }
     let stats = t.finish();
+    let np = sched::PANICS.load(std::sync::atomic::Ordering::SeqCst);
+    if np > 0 {
+        let last = sched::LAST_PANIC.lock().map(|g| g.clone()).unwrap_or_default();
+        eprintln!("note: {} panics were caught during the run; last: {}", np, last);
+    }
     println!("{}", stats.to_json(&suite, seed, &extra));
 }
 
